@@ -4,11 +4,37 @@ from props import P
 P("C28",
   title="LRU sets behave as a recency-ordered key map",
   design_ref="DESIGN.md §3 C28",
-  technique="Coq proof (invariant + simulation to a recency-list/key-map reference over arbitrary histories) + exact "
-            "model/impl correspondence by vm_compute",
-  level_text="under construction",
-  level_note="under construction",
+  technique="Coq proof (representation invariant + simulation by a recency-list/binding-history reference model, by induction "
+            "over arbitrary operation histories and any way count) + exact model/impl correspondence by vm_compute",
+  level_text="Theorems c28_* prove about the Gallina model of lruset.go/lruset_json.go (NewSet, Lookup, UpdateKey, Remove, Evict, "
+             "Visit with the sort.Search halving loop as written, MarshalJSON/UnmarshalJSON at the level of the decoded fields, "
+             "KeyString): the representation invariant (visit list duplicate free, in range, strictly sorted by last visit; "
+             "stamps <= counter; len(lastVisits) = wayCount) holds after NewSet n and is preserved by every operation, panicking "
+             "Visits included (c28_invariant_init/_step, c28_visitlist_sorted); along EVERY history on NewSet n, any n, every result "
+             "equals what the reference model (recency list, LRU first + binding history) prescribes and the states stay related "
+             "(c28_refinement, c28_refinement_step); the binary search returns the first index whose stamp exceeds the target on a "
+             "monotone predicate (c28_search_first_true), hence the end position; Evict returns the listed way with the earliest "
+             "last visit (c28_evict_lru); Visit makes a way last with all others stamped earlier (c28_visit_mru); Lookup returns "
+             "the way of the most recent operation mentioning the key (c28_lookup_last_bound, independent backward scan of the "
+             "history); the only panic is Visit outside [0,wayCount) and the search fuel never runs out "
+             "(c28_panic_iff_way_out_of_range); the JSON round trip always preserves the recency state (c28_json_roundtrip_order) "
+             "and is the identity (hence observationally equal on every later history) when keys are valid UTF-8 "
+             "(c28_json_roundtrip_partial, c28_json_roundtrip_history), which holds for every KeyString key (c28_keystring_valid); "
+             "the unrestricted round-trip statement is refuted (c28_json_roundtrip_refuted, known finding F-C28-1); KeyString is "
+             "injective on 64-bit pairs (c28_keystring_injective). c28_model_agreement_implies_property links the two evaluators. "
+             "The model is compared result by result (panics, null-vs-[] and map-entry order of every snapshot included) with the "
+             "real Set on every run, the restored Set replacing the one under test after each round trip.",
+  level_note="Trusted: Coq kernel + vm_compute; the Go harness that drives lruset.Set, recovers panics and decodes MarshalJSON output "
+             "field by field; the hand-written model (tied by exact equality, including Sets restored from arbitrary snapshots where "
+             "the binary search runs on unsorted lists, out-of-range entries and counters at 2^64-1). JSON text is modelled after "
+             "decoding by encoding/json (field values, null vs empty, entry order, keys coerced to valid UTF-8), not byte by byte.",
   quick_shards=8,
-  assumptions=[],
-  trusted=[],
+  assumptions=["the uint64 visit counter does not wrap (fewer than 2^64 Visit calls); stated as no_wrap / count_visits bound, the "
+               "model itself wraps (w64) and the wrap is tied through snapshots with visit_count near 2^64",
+               "keys are valid UTF-8 for the statements that go through JSON (all KeyString keys are ASCII); without it the round "
+               "trip loses bindings: known finding F-C28-1",
+               "Go int way ids/way counts are unbounded Z in the model (no arithmetic is performed on them); NewSet with a count "
+               "too large for memory is outside the model; copying a Set value shares its slices and map (aliasing not modelled)"],
+  trusted=["modelled, not verified: mem/vm/lruset/lruset.go, lruset_json.go; encoding/json (sorted map keys, U+FFFD coercion, "
+           "null vs []) and sort.Search are modelled from their documented behaviour and tied by the harness"],
   )
